@@ -21,7 +21,7 @@ RULE = ("(constants include ranges whose limits are 0) "
         "random histories (<= 25 steps, thorough <= 80) over the eight request types with id lists mixing known, unknown and "
         "repeated ids in every integer format that holds them plus text ids, ECVs in range / at min / at max / +-1 outside / in "
         "another numeric format, alarm set/clear and SV/EC value updates; distinct by request sequence; non-trivial when "
-        "at least three different request types were answered; plus: one alarm taken through 6-12 enable / disable / set / clear steps; a callback constant whose value lives in a store of the equipment, the predefined constants 1 and 2 (establish-communications time-out given as settings option 10/30/45, time format), constants observed through S2F13 snapshots; the clock SV format follows constant 2")
+        "at least three different request types were answered; plus: one alarm taken through 6-12 enable / disable / set / clear steps; a callback constant whose value lives in a store of the equipment, the predefined constants 1 and 2 (establish-communications time-out given as settings option 10/30/45, time format), constants observed through S2F13 snapshots; the clock SV format follows constant 2; ids that belong to another table (data values, constants, status variables, alarms) among the unknown ids of every request")
 ASSUMPTIONS = ["for an unknown alarm id in S5F5 any single reply is accepted", "ALED values other than 0/128 are not generated",
                "the clock SV is checked for format only", "an ECV sent in a numeric format different from the constant's own is "
                "either refused without effect or accepted such that the constant stays within bounds and S2F13 still answers"]
@@ -112,6 +112,12 @@ class Run:
         self.ecval[1] = self.ect0
         self.ec[2] = ("I4", 0, 2, 1, "TimeFormat", "")
         self.ecval[2] = 1
+        # ids of the *other* tables: a data value or constant id is not a status variable id (and the other way round)
+        from secsgem.gem import DataValue
+        for k, fmt, val in ((40, V.U4, 4040), ("dv_t", V.String, "dv-text")):
+            dv = DataValue(k, f"dv_{k}", fmt, use_callback=False)
+            dv.value = val
+            h.data_values[k] = dv
         self.al = {100: ("al100", "text one", 3), 101: ("al101", "second", 65), 70000: ("al70000", "x-text", 1)}
         for k, (name, text, code) in self.al.items():
             h.alarms[k] = Alarm(k, name, text, code, 5000 + len(h.alarms), 6000 + len(h.alarms))
@@ -174,7 +180,7 @@ class Run:
     def do_s1f3(self):
         rng = self.ctx.rng
         known = list(self.sv) + [1002, 1001, 1004, 1005]
-        ids = self.ids(known, [77, 0, 65000, "nope", 2**40])
+        ids = self.ids(known, [77, 0, 65000, "nope", 2**40, 40, "dv_t", 20, 21, "ec_t", 100])
         zero_len = rng.random() < 0.04
         trees = [id_tree(rng, i) for i in ids]
         if zero_len:
@@ -226,7 +232,7 @@ class Run:
 
     def do_s1f11(self):
         rng = self.ctx.rng
-        ids = self.ids(list(self.sv) + [1002], [77, "zz", 70000])
+        ids = self.ids(list(self.sv) + [1002], [77, "zz", 70000, 40, "dv_t", 20, "ec_t"])
         self.hist.append(f"S1F11{ids}")
         t = self.reply_tree(self.request(1, 11, e5ref.encode(("L", [id_tree(rng, i) for i in ids]))), 1, 12, "S1F11")
         if t is None:
@@ -266,7 +272,7 @@ class Run:
 
     def do_s2f13(self):
         rng = self.ctx.rng
-        ids = self.ids(list(self.ec), [77, "nope", 300])
+        ids = self.ids(list(self.ec), [77, "nope", 300, 40, "dv_t", 10, 12, "sv_a", 1002])
         self.hist.append(f"S2F13{ids}")
         t = self.reply_tree(self.request(2, 13, e5ref.encode(("L", [id_tree(rng, i) for i in ids]))), 2, 14, "S2F13")
         if t is None:
@@ -294,7 +300,7 @@ class Run:
 
     def do_s2f29(self):
         rng = self.ctx.rng
-        ids = self.ids(list(self.ec), [77, "nope"])
+        ids = self.ids(list(self.ec), [77, "nope", 40, "dv_t", 10, "sv_a"])
         self.hist.append(f"S2F29{ids}")
         t = self.reply_tree(self.request(2, 29, e5ref.encode(("L", [id_tree(rng, i) for i in ids]))), 2, 30, "S2F29")
         if t is None:
